@@ -333,6 +333,16 @@ theorem C18_reduce_mixed_timestep_counterexample :
     errOf (reduceKey .spec 11 id false 2 (1/10) (9/10) [[3], [4]]) = none := by
   constructor <;> rfl
 
+/-- **The median is the median.** With NumPy's linear interpolation at `q = 1/2`: for an odd number of members
+    the middle element of the sorted members, for an even number the mean of the two middle ones; `q = 0` and
+    `q = 1` (the `min`/`max` of `summarize`) are the first and last sorted member. -/
+theorem C18_median_spec (l : List Rat) (m : Nat) :
+    (l.length = 2 * m + 1 → median l = (sorted l).getD m 0) ∧
+    (l.length = 2 * m + 2 → median l = ((sorted l).getD m 0 + (sorted l).getD (m + 1) 0) / 2) ∧
+    quantile 0 l = (sorted l).getD 0 0 ∧ quantile 1 l = (sorted l).getD ((sorted l).length - 1) 0 ∧
+    (sorted l).Pairwise (· ≤ ·) ∧ (sorted l).Perm l :=
+  ⟨median_odd l m, median_even l m, quantile_zero l, quantile_one l, sorted_pairwise l, sorted_perm_self l⟩
+
 /-- default `bounds` and `quantiles` of `reduce` -/
 theorem C18_reduce_defaults : Gen.defaultBounds = 2 ∧ Gen.defaultQLow = 1/10 ∧ Gen.defaultQHigh = 9/10 := by
   refine ⟨rfl, rfl, rfl⟩
